@@ -213,7 +213,13 @@ def main():
                     del t
             # loading state into an object that is then used again (what a data manager does after a failed load:
             # the object is a ghost again and the next access loads the same state into the same object)
+            def used_leaf():
+                # a leaf that already owns (smaller) vectors: what a data manager reloads after an invalidation
+                two = [emb.key(r) for r in (2, 4)]
+                return leafcls(two) if is_set else leafcls({k: emb.val(1) for k in two})
+            bigstate = (leafcls(big) if is_set else leafcls({k: emb.val(1) for k in big})).__getstate__()
             for tname, mk, st_of in (('leaf-setstate-retry', lambda: leafcls(), lambda: other.__getstate__()),
+                                     ('used-leaf-setstate-retry', used_leaf, lambda: bigstate),
                                      ('tree-setstate-retry', lambda: cls(), lambda: build_done().__getstate__())):
                 def build_done():
                     t_ = build(path)
